@@ -105,7 +105,7 @@ var profiles = map[string]map[string]int{
 	"C08": {"ins": 30, "del": 14, "persist": 12, "reload": 5, "fork": 3, "restart": 1, "clone": 1, "canon": 2},
 	"C09": {"ins": 30, "del": 22, "persist": 12, "reload": 3, "fork": 2, "restart": 1, "rebf": 3},
 	"C10": {"ins": 30, "del": 12, "cur": 22, "seek": 12, "persist": 4, "reload": 3, "restart": 1, "fork": 1},
-	"C13": {"ins": 24, "del": 14, "persist": 14, "reload": 5, "fork": 2, "restart": 2, "newtree": 1, "bulk": 2},
+	"C13": {"ins": 24, "del": 14, "persist": 14, "reload": 5, "fork": 2, "restart": 2, "newtree": 1, "bulk": 2, "seek": 3, "iter": 2, "get": 2, "cur": 2, "clone": 1},
 	"C14": {"ins": 30, "del": 10, "persist": 10, "reload": 3, "rebf": 3},
 	"C15": {"ins": 20, "del": 8, "persist": 10, "fork": 3, "difflinks": 12, "bulk": 6, "newtree": 2, "reload": 2},
 	"C16": {"ins": 20, "del": 8, "persist": 8, "probe": 24, "bulk": 6, "reload": 1},
@@ -139,6 +139,10 @@ func GenConfig(prop string, g *Gen, tier string) Config {
 	}
 	if (prop == "C08" || prop == "C05" || prop == "C01") && g.Intn(20) == 0 {
 		c.ValD = "inf" // includes values the JSON marshaler rejects: persisting them must fail, not lose them
+	}
+	if (prop == "C05" || prop == "C01" || prop == "C08") && g.Intn(40) == 0 {
+		c.ValD = "hugestr" // a few entries of 64 KiB and 1 MiB: no size of entry is special
+		c.U = []int{8, 12, 20}[g.Intn(3)]
 	}
 	// occasional custom marshaler (gob): only the configurations that the library's
 	// own decode paths support (compact format, example types given)
@@ -192,11 +196,21 @@ func GenConfig(prop string, g *Gen, tier string) Config {
 			}
 		}
 		c.BF = []uint{2, 2, 3, 4}[g.Intn(4)]
+		if g.Intn(10) == 0 {
+			c.U = 400 // flushes of well over 40 nodes
+		}
 	case "C04", "C09":
 		// adversarial layer assignments matter most here
 		if g.Intn(3) == 0 {
 			c.KeyD = "userkey"
 			c.Layers = genLayers(g, c.U)
+		} else if prop == "C04" && g.Intn(6) == 0 && c.Marshaler == "json" && !c.NoLike {
+			// keys whose layer is computed from their marshaled form; some inserts run with one
+			// of those Marshal calls failing
+			c.KeyD = []string{"struct", "lstruct"}[g.Intn(2)]
+			c.Layers = nil
+			c.CbFaults = true
+			c.CmpScale = 0
 		}
 	case "C05":
 		if g.Intn(4) == 0 {
@@ -227,7 +241,7 @@ func GenConfig(prop string, g *Gen, tier string) Config {
 		// loads must really happen: no cache, a 1-2 entry cache, or the evicting chaos cache
 		c.Cache = []string{"none", "none", "none", "arc-tiny:1", "arc-tiny:2", "chaos"}[g.Intn(6)]
 		c.BF = []uint{2, 2, 3, 4}[g.Intn(4)]
-		c.U = []int{12, 20, 40, 80}[g.Intn(4)]
+		c.U = []int{12, 20, 40, 80, 200}[g.Intn(5)]
 		if c.KeyD == "userkey" {
 			c.Layers = genLayers(g, c.U)
 		}
@@ -268,7 +282,26 @@ func GenConfig(prop string, g *Gen, tier string) Config {
 
 func genLayers(g *Gen, U int) []uint8 {
 	ls := make([]uint8, U)
-	switch g.Intn(6) {
+	switch g.Intn(7) {
+	case 6: // the smallest and the greatest keys are the high ones, the levels below them are empty
+		top := uint8(2 + g.Intn(3))
+		for i := range ls {
+			if g.Intn(8) == 0 {
+				ls[i] = 1
+			}
+		}
+		for _, i := range []int{0, 1, 2, U - 3, U - 2, U - 1} {
+			if i >= 0 && i < U && g.Intn(2) == 0 {
+				ls[i] = top
+			}
+		}
+		if g.Intn(2) == 0 {
+			for i := range ls {
+				if ls[i] == 1 {
+					ls[i] = 0
+				}
+			}
+		}
 	case 0: // all zero
 	case 1: // everything high
 		for i := range ls {
@@ -332,7 +365,11 @@ func GenScenario(prop string, seed uint64, tier string) *Scenario {
 		nOps = g.Range(10, 40)
 	}
 	for len(s.ops) < nOps {
-		if g.Intn(25) == 0 {
+		motifOdds := 25
+		if prop == "C12" {
+			motifOdds = 10 // the structurally interesting situations are where multi-step operations can fail half-way
+		}
+		if g.Intn(motifOdds) == 0 {
 			s.emitMotif(prop)
 			continue
 		}
@@ -373,7 +410,90 @@ func (s *genState) emitMotif(prop string) {
 		return
 	}
 	ti := g.Intn(len(s.trees))
-	switch g.Intn(5) {
+	nMotifs := 5
+	if prop == "C03" {
+		nMotifs = 8
+	}
+	if (prop == "C12" || prop == "C10") && g.Intn(4) == 0 {
+		// a tall persisted tree, read back through whatever cache there is, and a cursor that
+		// starts exactly on a key held by an interior node
+		s.emitBulk(ti, g.Range(60, 260))
+		s.emitPersist(ti, prop)
+		t := s.trees[ti]
+		var inner []int
+		for kk := range t.model {
+			if s.layerOf(kk) >= 1 {
+				inner = append(inner, kk)
+			}
+		}
+		if len(inner) == 0 {
+			return
+		}
+		sort.Ints(inner)
+		for i := 0; i < 2; i++ {
+			op := Op{K: "cur", T: ti, F: "ceil", Key: inner[g.Intn(len(inner))]}
+			dir := 1
+			if g.Intn(3) == 0 {
+				dir = -1
+			}
+			for j, n := 0, 1+g.Intn(6); j < n; j++ {
+				op.S = append(op.S, dir)
+			}
+			s.ops = append(s.ops, op)
+		}
+		return
+	}
+	switch g.Intn(nMotifs) {
+	case 5, 6:
+		// a tree and its clone receive the same inserts (byte-identical new nodes) and are
+		// persisted at the same time
+		if g.Intn(2) == 0 {
+			s.emitPersist(ti, "")
+		}
+		t := s.trees[ti]
+		fop := Op{K: "fork", T: ti, N: g.Intn(maxTrees), A: -1}
+		nt := &genTree{model: cpMap(t.model), base: t.base, hasRoot: t.hasRoot, baseVer: t.baseVer, disk: t.disk, dirty: t.dirty}
+		full := len(s.trees) >= maxTrees
+		s.ops = append(s.ops, fop)
+		s.place(fop.N, nt)
+		slot := len(s.trees) - 1
+		if full {
+			slot = fop.N
+			if slot < 0 || slot >= len(s.trees) {
+				slot = len(s.trees) - 1
+			}
+		}
+		if slot == ti {
+			return
+		}
+		for i, n := 0, 1+g.Intn(4); i < n; i++ {
+			k := s.anyKey(t, 25)
+			v := g.Intn(50)
+			for _, sl := range []int{ti, slot} {
+				s.ops = append(s.ops, Op{K: "ins", T: sl, Key: k, Val: v})
+				s.trees[sl].model[k] = v
+				s.trees[sl].dirty = true
+			}
+		}
+		if g.Intn(3) == 0 {
+			// one side diverges a little
+			k := s.anyKey(t, 25)
+			s.ops = append(s.ops, Op{K: "ins", T: slot, Key: k, Val: 7})
+			s.trees[slot].model[k] = 7
+		}
+		cop := Op{K: "copersist", T: ti, N: slot}
+		if g.Intn(3) == 0 {
+			cop.F, cop.B = "faults", []int{30, 100, 300}[g.Intn(3)]
+		}
+		s.ops = append(s.ops, cop)
+		s.vers = append(s.vers, &genVer{kind: "root", snap: cpMap(s.trees[ti].model), disk: t.disk, maybeDead: true},
+			&genVer{kind: "root", snap: cpMap(s.trees[slot].model), disk: t.disk, maybeDead: true})
+	case 7:
+		// a flush of many nodes whose caller gives up midway
+		s.emitBulk(ti, g.Range(120, 400))
+		op := Op{K: "persist", T: ti, F: "cancel", N: []int{0, 1, 3, 10, 39, 45, 80}[g.Intn(7)]}
+		s.ops = append(s.ops, op)
+		s.vers = append(s.vers, &genVer{kind: "root", snap: cpMap(s.trees[ti].model), disk: s.trees[ti].disk, maybeDead: true})
 	case 4:
 		// two trees loaded from one just-committed version both delete the same interior key
 		// (merging the same two children), then one of them keeps editing
@@ -492,7 +612,7 @@ func (s *genState) emitPersist(ti int, prop string) {
 	t := s.trees[ti]
 	op := Op{K: "persist", T: ti}
 	v := &genVer{kind: "root", snap: cpMap(t.model), disk: t.disk}
-	if prop == "C03" {
+	if prop == "C03" || ((prop == "C05" || prop == "C02") && s.g.Intn(6) == 0) {
 		switch s.g.Intn(6) {
 		case 0, 1:
 			op.F = "faults"
@@ -505,6 +625,11 @@ func (s *genState) emitPersist(ti int, prop string) {
 			v.maybeDead = true
 		case 3:
 			op.F = "stall"
+		case 4:
+			// the caller's context is cancelled after N writes completed
+			op.F = "cancel"
+			op.N = []int{0, 1, 3, 10, 39, 45}[s.g.Intn(6)]
+			v.maybeDead = true
 		}
 	}
 	s.ops = append(s.ops, op)
@@ -532,9 +657,15 @@ func (s *genState) emit(kind, prop string) {
 		if (prop == "C09" || prop == "C04") && t.hasRoot && g.Intn(10) == 0 {
 			iop.F, iop.N = "loadfault", 1+g.Intn(5)
 		}
+		if s.cfg.CbFaults && g.Intn(4) == 0 {
+			iop.F, iop.N = "marfault", 1+g.Intn(6)
+		}
 		s.ops = append(s.ops, iop)
 		t.model[k] = v
 		t.dirty = true
+		if iop.F == "marfault" && g.Intn(2) == 0 {
+			s.emit("canon", prop)
+		}
 	case "del":
 		k := s.anyKey(t, 80)
 		if len(t.model) > 0 && g.Intn(6) == 0 {
@@ -580,6 +711,19 @@ func (s *genState) emit(kind, prop string) {
 		s.ops = append(s.ops, Op{K: "seek", T: ti, Key: s.anyKey(t, 40), N: n})
 	case "cur":
 		op := Op{K: "cur", T: ti, F: []string{"min", "max", "ceil"}[g.Intn(3)], Key: s.anyKey(t, 40)}
+		if op.F == "ceil" && g.Intn(2) == 0 {
+			// start exactly on a present key that an interior node holds
+			var inner []int
+			for kk := range t.model {
+				if s.layerOf(kk) >= 1 {
+					inner = append(inner, kk)
+				}
+			}
+			if len(inner) > 0 {
+				sort.Ints(inner)
+				op.Key = inner[g.Intn(len(inner))]
+			}
+		}
 		nm := g.Intn(len(t.model)*2 + 4)
 		dir := 1
 		if op.F == "max" || (op.F == "ceil" && g.Intn(2) == 0) {
